@@ -102,6 +102,11 @@ def gen_teams(rng, stratum, beta, n=None, maxsize=8):
             c = math.sqrt(2 * sz * sig * sig + 2 * beta * beta)
             z = rng.uniform(4, 9) * rng.choice([1, 1, -1])
             teams.append([((base + z * c * (i % 3)) / sz, sig) for _ in range(sz)])
+    elif stratum == "lowedge":
+        # large equal-size teams of settled players at the low edge of the range: exp(theta/c) is tiny
+        sz = rng.randint(4, 8)
+        for _ in range(n):
+            teams.append([(rng.uniform(-20, -16) * beta, rng.uniform(0.05, 0.5) * beta) for _ in range(sz)])
     elif stratum == "floor":
         # multi-player teams with unequal sigmas; used with a large gamma so that the kappa floor is reached
         for _ in range(n):
@@ -119,7 +124,7 @@ def gen_teams(rng, stratum, beta, n=None, maxsize=8):
     return teams
 
 
-STRATA = ["typical", "typical", "wide", "corners", "mismatch", "identical", "equalsize", "floor"]
+STRATA = ["typical", "typical", "wide", "corners", "mismatch", "identical", "equalsize", "floor", "lowedge"]
 
 
 def gen_config(rng, default_bias=0.4):
@@ -159,7 +164,7 @@ def gen_game(rng, kind=None, stratum=None, ties=None, n=None, maxsize=8, encode=
     ls = False
     if options:
         if rng.random() < 0.25:
-            tauopt = rng.choice([0.0, tau, beta / 10, 1e-9 * beta])
+            tauopt = rng.choice([0.0, tau, beta / 10, 1e-9 * beta, 0, 1, 3])     # ints too: rate(..., tau=0)
         ls = rng.random() < 0.25
         if rng.random() < 0.25:
             lsopt = rng.random() < 0.5
